@@ -16,6 +16,6 @@ echo "== build"; go build ./... 2>&1 | tail -3
 echo "== suite"; go test -vet=off -count=1 ./bint/... ./eth/... ./jrpc2/... ./shovel/config/... ./shovel/glf/... ./wctx/... ./wos/... ./wslog/... 2>&1 | grep -v "^ok" | tail -5; echo "suite rc=$?"
 echo "== demo with change"; (sh seeded/demo$K/RUN.sh > /tmp/seed-$ID-$K.changed.log 2>&1; echo "rc=$?")
 echo "== checks with change"
-mkdir -p /tmp/seedv-$ID-$K; cp /verif/KNOWN_FINDINGS.txt /tmp/seedv-$ID-$K/; for P in $ID "$@"; do /verif/bin/vc check -prop $P -repo $S -verif /tmp/seedv-$ID-$K 2>&1 | grep -E "^VIOLATION|^property=|^KNOWN" | cut -c1-260 | head -6; done
+mkdir -p /tmp/seedv-$ID-$K; cp /verif/KNOWN_FINDINGS.txt /tmp/seedv-$ID-$K/; for P in $ID "$@"; do /verif/bin/vc check -prop $P -repo $S -verif /tmp/seedv-$ID-$K 2>&1 | grep -E "^VIOLATION|^property=|^KNOWN" | cut -c1-260 | grep -v "^KNOWN" | head -6; done
 echo "== demo without change"; git checkout -q -- . ; (sh seeded/demo$K/RUN.sh > /tmp/seed-$ID-$K.unchanged.log 2>&1; echo "rc=$?")
 cd /verif; git -C /repo worktree remove --force $S; rm -rf /tmp/seedv-$ID-$K
